@@ -108,6 +108,10 @@ func runC14(job *Job, res *Result) {
 	names := strings.Split(job.Args["names"], "|")
 	paths := []string{"a", "b", "ab", "a/b", "a.b"}
 	vals := []string{"b", "b_c", "c"}
+	if v := job.Args["vals"]; v != "" {
+		// parameter / tag values outside the path alphabet (they are legal values; only paths are restricted)
+		vals = strings.Split(v, "|")
+	}
 	pnames := []string{"a", "a_b"}
 	subs := [][]string{nil, {}, {"a"}, {"ab"}, {"a/b"}, {"a", "b"}}
 	if thorough {
